@@ -237,7 +237,13 @@ WF gen_wellformed(Rng& g, int max_headers)
 		{
 			w.has_query = true;
 			t += '?';
-			if (g.coin(1, 4)) t += "/x/../y?";
+			// path-like text inside the query, including detours that would swallow path segments if the
+			// query were still attached when the path is normalised
+			if (g.coin(1, 3))
+			{
+				static char const* const q[] = {"/x/../y?", "x=/../c", "q/../../z", "=/../../../", "a=b/../../c/../d", "../x", "/.."};
+				t += q[g.choose(7)];
+			}
 			t += rnd_str(g, ALPHA(QCH), 0, 16);
 		}
 		w.target = t;
